@@ -35,17 +35,47 @@ Theorem root_task_outcomes :
   forall new_execution o,
     match root_task shipped_handback new_execution o with
     | TaskReturns d => True
-    | TaskRaises (Raise e) => new_execution = true /\ o = OErr e
+    | TaskRaises (Raise e) => o = OErr e
     | TaskRaises RaiseDryRun => new_execution = true /\ o = ODry
     | TaskRaises _ => False
     end.
 Proof. intros [|] [v|e|]; vm_compute; auto. Qed.
 
-(** extending an execution never fails the job: an inner error travels inside the dict *)
+(** a failed sub-execution fails the job in both modes; a value (or a dry run of an extending subrun) is a dict
+    that names the sub-execution's root job *)
+Theorem root_task_fails_iff_inner_fails :
+  forall new_execution e, root_task shipped_handback new_execution (OErr e) = TaskRaises (Raise e).
+Proof. intros [|] e; reflexivity. Qed.
+
 Theorem extend_returns_dict :
-  forall o, exists d, root_task shipped_handback false o = TaskReturns d
-                      /\ dict_get d KJobId = Some DMeta /\ dict_get d KCallHash = Some DMeta.
-Proof. intros [v|e|]; eexists; vm_compute; repeat split. Qed.
+  forall o, (forall e, o <> OErr e) ->
+    exists d, root_task shipped_handback false o = TaskReturns d
+              /\ dict_get d KJobId = Some DMeta /\ dict_get d KCallHash = Some DMeta.
+Proof. intros [v|e|] H; [| exfalso; apply (H e); reflexivity |]; eexists; vm_compute; repeat split. Qed.
+
+(** the hand-back equality also held for the earlier shape (error returned as a value): the difference
+    between the two shapes is what a LATER execution does, below *)
+Theorem handback_eq_direct_value_shape :
+  forall new_execution o, subrun_observed value_handback new_execution o = run_direct value_handback o.
+Proof. intros [|] [v|e|]; reflexivity. Qed.
+
+(** ** a second execution on the same backend *)
+(** with the failure raised by the job (as the code does now), a later execution behaves as direct
+    evaluation does: a value is replayed, a failure is run again -- in both modes, for all outcomes *)
+Theorem second_execution_eq_direct :
+  forall new_execution o1 o2, o1 <> ODry ->
+    second_execution_subrun shipped_handback new_execution o1 o2 = second_execution_direct shipped_handback o1 o2.
+Proof.
+  intros [|] [v|e|] [v2|e2|] H; try (exfalso; apply H; reflexivity); reflexivity.
+Qed.
+
+(** refuted for the earlier shape: the failed sub-execution is a cached value of the job, so the next
+    execution replays the old error without running the repaired sub-workflow *)
+Theorem value_shape_replays_failure_refuted :
+  exists o1 o2,
+    second_execution_subrun value_handback false o1 o2 = (Raise 1, false) /\
+    second_execution_direct value_handback o1 o2 = (RetV 2, true).
+Proof. exists (OErr 1), (OVal 2). split; reflexivity. Qed.
 
 (** replaying the recorded dict (CSE / ultimate hit on the _subrun_root_task job) observes the same:
     [then] is a function of the dict only *)
